@@ -24,7 +24,7 @@ Lemma he_state0 : forall l rest e fold, nolf l ->
   headers_end_go (l ++ 10 :: rest) 0 e fold = headers_end_go rest 1 (e + lenN l + 1) fold.
 Proof.
   induction l as [|c l IH]; intros rest e fold Hl.
-  - cbn [app lenN headers_end_go]. cbn. f_equal. lia.
+  - cbn [app lenN headers_end_go]. cbn. f_equal; lia.
   - unfold nolf in Hl. cbn [forallb] in Hl. apply andb_prop in Hl as [Hc Hl].
     cbn [app headers_end_go]. change (0 =? 0) with true. cbv iota.
     destruct (c =? 10) eqn:E; [discriminate|].
@@ -52,7 +52,7 @@ Lemma he_lines : forall ls rest e fold, Forall line_ok ls -> exists fold',
   headers_end_go (enc_lines ls ++ crlf ++ rest) 1 e fold = (e + lenN (enc_lines ls) + 2, fold').
 Proof.
   induction ls as [|l ls IH]; intros rest e fold H.
-  - exists fold. cbn. f_equal. lia.
+  - exists fold. cbn. f_equal; lia.
   - inversion H as [|? ? Hl Hls]; subst.
     unfold enc_lines. cbn [map concat]. fold (enc_lines ls). rewrite <- app_assoc.
     destruct (he_line l (enc_lines ls ++ crlf ++ rest) e fold Hl) as [f1 E1].
@@ -68,5 +68,264 @@ Theorem headers_end_of_lines ls rest : Forall line_ok ls -> exists fold,
   headers_end (enc_lines ls ++ crlf ++ rest) = (lenN (enc_lines ls ++ crlf), fold).
 Proof.
   intros H. unfold headers_end. destruct (he_lines ls rest 0 false H) as [f E]. exists f. rewrite E.
-  rewrite lenN_app. unfold crlf. cbn [lenN]. f_equal. lia.
+  rewrite lenN_app. unfold crlf. cbn [lenN]. f_equal; lia.
 Qed.
+
+(* ====================================================================== 2. the request parser on a line-structured head *)
+Lemma dropN_app_exact' {A} (a b : list A) : dropN (lenN a) (a ++ b) = b.
+Proof.
+  induction a as [|x a IH]; cbn [lenN app dropN].
+  - destruct b; reflexivity.
+  - destruct (N.succ (lenN a) =? 0) eqn:E; [apply N.eqb_eq in E; lia|]. rewrite N.pred_succ. exact IH.
+Qed.
+
+(* the first LF splits a buffer uniquely *)
+Lemma first_lf_unique : forall (a c : bytes) b d, nolf a -> nolf c -> a ++ 10 :: b = c ++ 10 :: d -> a = c /\ b = d.
+Proof.
+  induction a as [|x a IH]; intros c b d Ha Hc H.
+  - destruct c as [|y c]; cbn [app] in H.
+    + inversion H; auto.
+    + inversion H; subst y. unfold nolf in Hc. cbn in Hc. discriminate.
+  - destruct c as [|y c]; cbn [app] in H.
+    + inversion H; subst x. unfold nolf in Ha. cbn in Ha. discriminate.
+    + inversion H; subst y. unfold nolf in Ha, Hc. cbn [forallb] in Ha, Hc.
+      apply andb_prop in Ha as [_ Ha]. apply andb_prop in Hc as [_ Hc].
+      destruct (IH c b d Ha Hc H2) as [-> ->]. auto.
+Qed.
+
+(* grabMimeBlock when a field block is expected: it ends where headersEnd says *)
+Lemma grab_mime_true_he limit s b s1 b1 :
+  grab_mime limit s b = (true, s1, b1) -> r_http s && (r_major s =? 1) = true ->
+  exists e fold, headers_end b = (e, fold) /\ e <> 0 /\ b1 = dropN e b /\
+                 r_major s1 = r_major s /\ r_minor s1 = r_minor s.
+Proof.
+  unfold grab_mime. intros H Hx. rewrite Hx in H.
+  destruct (headers_end b) as [e fold] eqn:HE. destruct (e =? 0) eqn:E0.
+  - destruct (limit <=? lenN b + first_line_size s); inversion H.
+  - destruct (limit <=? first_line_size s + e); inversion H; subst s1 b1.
+    exists e, fold. repeat split; try reflexivity. apply N.eqb_neq. exact E0.
+Qed.
+
+Section HeadExtent.
+  Variables (relaxed : bool) (limit : N).
+
+  (* an accepted message: where the request line and the field block end *)
+  Lemma first_done_shape s b f rest : r_stage s = SFirst -> fits b ->
+    classify (do_first relaxed limit s b) = Done f rest ->
+    exists line r s1, find_line b = Some (line, r) /\ parse_line relaxed s line = (s1, true) /\
+      f_major f = r_major s1 /\ f_http f = r_http s1 /\
+      (r_http s1 && (r_major s1 =? 1) = true ->
+       exists e fold, headers_end r = (e, fold) /\ e <> 0 /\ rest = dropN e r).
+  Proof.
+    intros Hst Hf. unfold do_first. rewrite Hst. cbn [stage_eqb].
+    destruct (first_line relaxed limit s b) as [[ret s1] b1] eqn:FL. destruct ret.
+    - unfold first_line in FL.
+      destruct (find_line b) as [[line r]|] eqn:FLn.
+      + destruct (limit <=? lenN line) eqn:LL.
+        * destruct (limit <=? lenN b); inversion FL.
+        * destruct (parse_line relaxed s line) as [sx [|]] eqn:PL; inversion FL; subst sx b1.
+          unfold do_mime. cbn [r_stage set_stage stage_eqb].
+          destruct (grab_mime limit (set_stage s1 SMime) r) as [[ok s2] b2] eqn:G. destruct ok.
+          -- pose proof (grab_mime_true_stage _ _ _ _ _ G) as Hd.
+             destruct (grab_mime_true_split _ _ _ _ _ G) as (block & Hr & Hm & Hu & Hh & Hma & Hlim).
+             unfold classify. rewrite !needs_more_stage, Hd. cbn [stage_eqb negb].
+             intros K; inversion K; subst f rest.
+             exists line, r, s1. split; [reflexivity|]. split; [exact PL|].
+             cbn [f_major f_http fields_of]. rewrite Hma, Hh. cbn [r_major r_http set_stage].
+             split; [reflexivity|]. split; [reflexivity|].
+             intros Hx.
+             destruct (grab_mime_true_he _ _ _ _ _ G) as (e & fold & HE & He & Hb & _); [exact Hx|].
+             exists e, fold. auto.
+          -- unfold classify.
+             destruct (needs_more (if r_code s2 =? rq_sc_header_too_large then set_code s2 rq_sc_fields_too_large else s2));
+               intros K; inversion K.
+      + destruct (limit <=? lenN b); inversion FL.
+    - destruct (first_line_more _ _ _ _ _ _ FL) as [-> ->].
+      unfold do_mime. rewrite Hst. cbn [stage_eqb]. unfold classify. rewrite needs_more_stage, Hst. cbn.
+      intros K; inversion K.
+    - unfold classify. cbn. intros K; inversion K.
+  Qed.
+
+  (* skipGarbageLines leaves a buffer that starts with a head line alone *)
+  Lemma none_view_line l x : line_ok l -> none_view relaxed (l ++ x) = l ++ x.
+  Proof.
+    intros [Hl Hc]. unfold none_view. destruct relaxed; [|reflexivity].
+    destruct l as [|c l]; [destruct Hc|]. cbn [app skip_garbage].
+    unfold nolf in Hl. cbn [forallb] in Hl. apply andb_prop in Hl as [H10 _].
+    destruct (c =? 10); [discriminate|].
+    assert (E : (c =? 13) = false) by (apply N.eqb_neq; exact Hc). rewrite E. reflexivity.
+  Qed.
+
+  (* HEAD EXTENT: the strict reader sees  line1 CRLF *(line CRLF) CRLF  at the front of the buffer; if Squid's request
+     parser accepts the buffer as an HTTP/1.x message, it consumed exactly that head *)
+  Theorem head_extent line1 ls x f rest :
+    line_ok line1 -> Forall line_ok ls -> nolf line1 ->
+    fits (line1 ++ crlf ++ enc_lines ls ++ crlf ++ x) ->
+    parse_whole relaxed limit (line1 ++ crlf ++ enc_lines ls ++ crlf ++ x) = Done f rest ->
+    f_http f && (f_major f =? 1) = true ->
+    rest = x.
+  Proof.
+    intros Hl1 Hls Hn1 Hf HP H1x.
+    unfold parse_whole in HP. rewrite step_classify, do_parse_none in HP by reflexivity.
+    rewrite none_view_line in HP by exact Hl1.
+    set (buf := line1 ++ crlf ++ enc_lines ls ++ crlf ++ x) in *.
+    assert (Hne : buf <> []) by (unfold buf; destruct Hl1 as [_ Hc]; destruct line1; [destruct Hc|discriminate]).
+    assert (Hn13 : relaxed = true -> buf <> [13]).
+    { intros _ E. unfold buf in E. destruct Hl1 as [_ Hc]. destruct line1 as [|c l]; [destruct Hc|].
+      cbn [app] in E. inversion E; subst c. apply Hc. reflexivity. }
+    rewrite none_tail_first in HP by assumption.
+    destruct (first_done_shape (set_stage rst0 SFirst) buf f rest eq_refl Hf HP)
+      as (line & r & s1 & FLn & PL & Hma & Hht & Hend).
+    destruct (find_line_split _ _ _ Hf FLn) as [Hb Hline].
+    (* the first LF of buf is the one of line1's CRLF *)
+    assert (Hsplit : line = line1 ++ [13] /\ r = enc_lines ls ++ crlf ++ x).
+    { apply (first_lf_unique line (line1 ++ [13])).
+      - exact Hline.
+      - apply nolf_app. split; [exact Hn1|reflexivity].
+      - rewrite <- Hb. unfold buf, crlf. rewrite <- !app_assoc. reflexivity. }
+    destruct Hsplit as [-> ->].
+    rewrite Hma, Hht in H1x. destruct (Hend H1x) as (e & fold & HE & He & ->).
+    destruct (headers_end_of_lines ls x Hls) as [fold' HE'].
+    rewrite HE in HE'. inversion HE'; subst e.
+    rewrite app_assoc. apply dropN_app_exact'.
+  Qed.
+End HeadExtent.
+
+(* ====================================================================== 3. the connection loop *)
+Definition is_forward (e : event) : bool := match e with EForward _ _ => true | _ => false end.
+
+(* every event but the last is a completely forwarded message *)
+Lemma run_conn_terminal_last : forall fuel cf off buf pre e post,
+  run_conn fuel cf off buf = pre ++ e :: post -> is_forward e = false -> post = [].
+Proof.
+  induction fuel as [|k IH]; intros cf off buf pre e post H He.
+  - cbn in H. destruct pre as [|p pre]; cbn in H; inversion H; subst; [reflexivity|]. destruct pre; discriminate.
+  - cbn [run_conn] in H. destruct buf as [|b0 buf]; [destruct pre; discriminate|].
+    destruct (process_one cf (b0 :: buf)) as [ |c| |f persist rest|f| | ].
+    1: destruct pre; discriminate.
+    1,2,4,5,6: destruct pre as [|p pre]; cbn in H; inversion H; subst; try reflexivity; destruct pre; discriminate.
+    destruct pre as [|p pre]; cbn [app] in H; inversion H; subst.
+    + cbn in He. discriminate.
+    + destruct persist.
+      * eapply IH; eassumption.
+      * destruct pre as [|p2 pre]; cbn in H2; inversion H2; subst; [reflexivity|]. destruct pre; discriminate.
+Qed.
+
+(* extents chain: each event starts where the previous message ended *)
+Fixpoint chained (off : N) (evs : list event) : Prop :=
+  match evs with
+  | [] => True
+  | EForward st f :: r => st = off /\ chained (off + fw_used f) r
+  | EPartial st _ :: r | EReject st _ :: r | EReset st :: r | EOther st :: r => st = off /\ chained off r
+  | EClose :: r | EFuel :: r => chained off r
+  end.
+
+Lemma run_conn_chained : forall fuel cf off buf, chained off (run_conn fuel cf off buf).
+Proof.
+  induction fuel as [|k IH]; intros cf off buf; cbn [run_conn]; [exact I|].
+  destruct buf as [|b0 buf]; [exact I|].
+  destruct (process_one cf (b0 :: buf)) as [ |c| |f persist rest|f| | ]; cbn [chained]; auto.
+  split; [reflexivity|]. destruct persist; [apply IH|exact I].
+Qed.
+
+(* ====================================================================== 4. what goes upstream carries one framing *)
+Import SquidV.ClenModel SquidV.HdrparseModel.
+
+Lemma check_items_good relaxed : forall items st, cl_sawGood st = true -> cl_sawGood (check_items relaxed st items) = true.
+Proof.
+  induction items as [|raw more IH]; intros st Hg; cbn [check_items]; [exact Hg|].
+  destruct (rtrim raw) as [|i0 it]; [exact Hg|].
+  destruct (check_value relaxed st (i0 :: it)) as [ok st'] eqn:CV.
+  assert (Hg' : cl_sawGood st' = true).
+  { unfold check_value in CV. destruct (find_digits (cl_ws relaxed) (i0 :: it)); [|inversion CV; exact Hg].
+    destruct (parse_offset b) as [[v n]|]; [|inversion CV; exact Hg].
+    destruct (v <? 0)%Z; [inversion CV; exact Hg|].
+    destruct (negb (good_suffix (cl_delim relaxed) (dropN n b))); [inversion CV; exact Hg|].
+    rewrite Hg in CV. inversion CV. reflexivity. }
+  destruct (negb ok && cl_sawBad st'); [exact Hg'|apply IH; exact Hg'].
+Qed.
+
+(* checkField keeps a field only for the first good value; sawGood never resets *)
+Lemma check_field_keep relaxed st v k st' : check_field relaxed st v = (k, st') ->
+  (k = true -> cl_sawGood st = false) /\ (k = true -> cl_sawGood st' = true) /\
+  (cl_sawGood st = true -> cl_sawGood st' = true).
+Proof.
+  unfold check_field. destruct (cl_sawBad st).
+  - intros H; inversion H; subst. repeat split; auto; discriminate.
+  - destruct (has_comma v).
+    + unfold check_list. destruct (negb relaxed); intros H; inversion H; subst.
+      * repeat split; auto; discriminate.
+      * repeat split; try discriminate. intros Hg. apply check_items_good. exact Hg.
+    + unfold check_value. destruct (find_digits (cl_ws relaxed) v); [|intros H; inversion H; subst; repeat split; auto; discriminate].
+      destruct (parse_offset b) as [[x n]|]; [|intros H; inversion H; subst; repeat split; auto; discriminate].
+      destruct (x <? 0)%Z; [intros H; inversion H; subst; repeat split; auto; discriminate|].
+      destruct (negb (good_suffix (cl_delim relaxed) (dropN n b))); [intros H; inversion H; subst; repeat split; auto; discriminate|].
+      destruct (cl_sawGood st) eqn:G; intros H; inversion H; subst; repeat split; auto; discriminate.
+Qed.
+
+Definition n_cl (es : list hentry) : nat := length (filter (fun e => he_id e =? ID_CL) es).
+
+Lemma entries_loop_one_cl relaxed : forall es st kept st', h_entries_loop relaxed es st = Some (kept, st') ->
+  (cl_sawGood st = true -> n_cl kept = 0%nat) /\ (n_cl kept <= 1)%nat /\
+  (cl_sawGood st = true -> cl_sawGood st' = true) /\ (n_cl kept = 1%nat -> cl_sawGood st' = true).
+Proof.
+  induction es as [|e r IH]; intros st kept st' H; cbn [h_entries_loop] in H.
+  - inversion H; subst. cbn. repeat split; auto; try lia; discriminate.
+  - destruct (he_id e =? ID_CL) eqn:Eid.
+    + destruct (check_field relaxed st (he_value e)) as [keep st1] eqn:CF.
+      destruct (check_field_keep _ _ _ _ _ CF) as (K1 & K2 & K3).
+      destruct keep.
+      * destruct (h_entries_loop relaxed r st1) as [[k s]|] eqn:L; [|discriminate]. inversion H; subst.
+        destruct (IH _ _ _ L) as (I1 & I2 & I3 & I4).
+        unfold n_cl in *. cbn [filter]. rewrite Eid. cbn [length]. rewrite (I1 (K2 eq_refl)).
+        repeat split; try lia; try (intros; apply I3, K2; reflexivity).
+      * destruct relaxed; [|discriminate].
+        destruct (IH _ _ _ H) as (I1 & I2 & I3 & I4). repeat split; auto.
+    + destruct (h_entries_loop relaxed r st) as [[k s]|] eqn:L; [|discriminate]. inversion H; subst.
+      destruct (IH _ _ _ L) as (I1 & I2 & I3 & I4).
+      unfold n_cl in *. cbn [filter]. rewrite Eid. repeat split; auto.
+Qed.
+
+Lemma n_cl_del es : n_cl (h_del_id ID_CL es) = 0%nat.
+Proof.
+  unfold n_cl, h_del_id. induction es as [|e r IH]; [reflexivity|]. cbn [filter].
+  destruct (he_id e =? ID_CL) eqn:E; cbn [negb]; [exact IH|]. cbn [filter]. rewrite E. exact IH.
+Qed.
+
+Lemma n_cl_app a b : n_cl (a ++ b) = (n_cl a + n_cl b)%nat.
+Proof. unfold n_cl. rewrite filter_app, app_length. reflexivity. Qed.
+
+Lemma n_cl_del_te es : (n_cl (h_del_id ID_TE es) <= n_cl es)%nat.
+Proof.
+  unfold n_cl, h_del_id. induction es as [|e r IH]; [cbn; lia|]. cbn [filter].
+  destruct (negb (he_id e =? ID_TE)); cbn [filter]; destruct (he_id e =? ID_CL); cbn [length]; lia.
+Qed.
+
+(* HttpHeader::parse leaves at most one Content-Length entry, and none next to Transfer-Encoding *)
+Theorem parsed_header_one_cl relaxed req proh block hr : h_parse relaxed req proh block = Some hr ->
+  (n_cl (hr_entries hr) <= 1)%nat /\ (h_has_id ID_TE (hr_entries hr) = true -> n_cl (hr_entries hr) = 0%nat).
+Proof.
+  unfold h_parse. destruct (h_block_fields relaxed req block) as [es|]; [|discriminate].
+  destruct (h_entries_loop relaxed es cl_init) as [[kept st]|] eqn:L; [|discriminate].
+  intros H; inversion H; subst hr. clear H.
+  destruct (entries_loop_one_cl _ _ _ _ _ L) as (_ & Hle & _ & _).
+  unfold h_post_process. destruct proh.
+  - cbn [hr_entries]. pose proof (n_cl_del_te (h_del_id ID_CL kept)) as H1. rewrite n_cl_del in H1. split; [lia|intros _; lia].
+  - destruct (h_has_id ID_TE kept) eqn:TE; cbn [hr_entries].
+    + rewrite n_cl_del. split; [lia|reflexivity].
+    + destruct (cl_sawBad st); cbn [hr_entries].
+      * rewrite n_cl_del. split; [lia|reflexivity].
+      * destruct (cl_needsSan st); cbn [hr_entries].
+        -- rewrite n_cl_app, n_cl_del. destruct (cl_sawGood st).
+           ++ split; [cbn; lia|]. intros HT. exfalso.
+              unfold h_has_id in HT. rewrite existsb_app in HT. apply orb_prop in HT as [HT|HT].
+              ** assert (h_has_id ID_TE kept = true); [|congruence].
+                 unfold h_has_id, h_del_id in *. rewrite existsb_exists in *. destruct HT as (x & Hin & Hx).
+                 apply filter_In in Hin as [Hin _]. exists x. auto.
+              ** cbn in HT. rewrite orb_false_r in HT. rewrite N.eqb_sym in HT. rewrite HdrparseProofs.ids_differ in HT. discriminate.
+           ++ rewrite app_nil_r. split; [cbn; lia|reflexivity].
+        -- split; [exact Hle|]. intros HT. congruence.
+Qed.
+
+Lemma values_of_len id es : length (values_of id es) = length (filter (fun e => he_id e =? id) es).
+Proof. unfold values_of. apply map_length. Qed.
